@@ -188,7 +188,8 @@ pub fn judge_cli(c: &Case) -> Obs {
 }
 
 fn cases() -> impl Strategy<Value = Case> {
-    (proggen::prog_spec(24), prop::collection::vec(raw_cmd(), 0..14), input_bytes(), any::<bool>()).prop_map(|(spec, cmds, input, explicit_quit)| Case { spec, cmds, input, explicit_quit })
+    let spec = prop_oneof![5 => proggen::prog_spec(24).boxed(), 1 => proggen::raw_image_spec(super::c03::image_words()).boxed()];
+    (spec, prop::collection::vec(raw_cmd(), 0..14), input_bytes(), any::<bool>()).prop_map(|(spec, cmds, input, explicit_quit)| Case { spec, cmds, input, explicit_quit })
 }
 
 impl Prop for C09 {
@@ -196,7 +197,7 @@ impl Prop for C09 {
         "C09"
     }
     fn rule(&self) -> &'static str {
-        "ProgGen programs that terminate under RefVM (all endings incl. error exits and jumps to 0xFFFF, self-modifying code, .break directives, input-reading programs) x scripts of 0-13 commands over {step, step into k, step out, continue, break add/remove/list, print, registers, assembly, echo, help} with generated valid and invalid arguments, ended by `quit` or by end of input. \
+        "ProgGen programs and (1 in 6) arbitrary word images that terminate under RefVM (all endings incl. error exits and jumps to 0xFFFF, self-modifying code, .break directives, input-reading programs) x scripts of 0-13 commands over {step, step into k, step out, continue, break add/remove/list, print, registers, assembly, echo, help} with generated valid and invalid arguments, ended by `quit` or by end of input. \
          Oracle: program output, exit status, input consumption, executed-instruction count and the full final snapshot (registers, PC, CC, all memory) of the debugged run equal those of the plain run of the same source (both by lace; the plain run is independently checked against RefVM in C03). \
          A sample of the same pairs also runs through the real binary (`lace debug --minimal --command <script>` vs `lace run --minimal`: stdout and exit status byte-identical). Non-trivial: the script resumes execution at least twice and the debugger pauses at least once (breakpoint, HALT, step complete, bounds). Distinct = hash(source, script, input)."
     }
@@ -207,7 +208,7 @@ impl Prop for C09 {
         ]
     }
     fn run_worker(&self, ctx: &Ctx, rep: &mut Report) {
-        let n = ctx.share(ctx.tier.pick(10_000, 150_000));
+        let n = ctx.share(ctx.tier.pick(25_000, 250_000));
         drive(ctx, rep, "sessions", cases(), n, &mut |c: &Case| judge_case(c));
         std::env::set_var("VERIF_MAX_SHRINK", "40");
         let n = ctx.share(ctx.tier.pick(96, 1500));
